@@ -57,11 +57,32 @@ func c11RootsApplied(c *Ctx) {
 			if x.Call.StaticCallee() == applyFn {
 				return true, ""
 			}
-			for _, a := range x.Call.Args {
-				if mc, ok := a.(*ssa.MakeClosure); ok {
-					if cf, ok := mc.Fn.(*ssa.Function); ok && callsApply(cf) {
-						return true, ""
+			// a local closure or small helper of the package wrapping the mapping: every value it returns is mapped
+			if sc := x.Call.StaticCallee(); sc != nil && len(sc.Blocks) > 0 && (sc.Pkg == applyFn.Pkg || (sc.Parent() != nil && sc.Parent().Pkg == applyFn.Pkg)) && callsApply(sc) {
+				all := true
+				for _, r := range returnsOf(sc) {
+					if len(r.Results) == 0 {
+						all = false
+						continue
 					}
+					if ok, _ := mapped(r.Results[0], seen); !ok {
+						all = false
+					}
+				}
+				if all {
+					return true, ""
+				}
+			}
+			for _, a := range x.Call.Args {
+				var cf *ssa.Function
+				switch t := a.(type) {
+				case *ssa.MakeClosure:
+					cf, _ = t.Fn.(*ssa.Function)
+				case *ssa.Function:
+					cf = t
+				}
+				if cf != nil && callsApply(cf) {
+					return true, ""
 				}
 			}
 			if o := staticCalleeObj(&x.Call); o != nil {
